@@ -68,10 +68,31 @@ fn main() {
         "c06-worker" => {
             std::process::exit(props::c06::worker(&args[2]));
         }
+        "ambig" => {
+            let _ = std::panic::take_hook();
+            rmc_ambig();
+        }
         "replay" => {
             let code = props::replay(&args[2]);
             std::process::exit(code);
         }
         _ => usage(),
+    }
+}
+
+
+/// Lists the pairs of library systems with conflicting access that the schedules leave unordered.
+fn rmc_ambig() {
+    use bevy::{ecs::schedule::ScheduleLabel, prelude::*};
+    let mut cfg = sim::Cfg::default();
+    cfg.events = true;
+    cfg.tick = sim::TickWiring::MaxTickRate(30);
+    for (choice, desc) in sim::order_choices(&cfg) {
+        println!("feasible order choice {choice:?}: {desc}");
+    }
+    for (label, name) in [(PreUpdate.intern(), "PreUpdate"), (PostUpdate.intern(), "PostUpdate")] {
+        for (pair, n) in sim::ambiguities(&cfg, label) {
+            println!("{name}: {} <-> {} ({n} conflicts)", pair.0, pair.1);
+        }
     }
 }
